@@ -249,10 +249,8 @@ def search(rep: C.Report, tier: str, broken):
                 "terms_coeffs_low_to_high": [[q.coef.tolist() for q in fac] for fac in terms]}
         allb = list(itertools.product(("Cardinal", "Chebyshev"), repeat=rank))
         for F, G in itertools.product(allb, allb):
-            ups = sum(f == "Cardinal" and t == "Chebyshev" for f, t in zip(F, G))
-            downs = sum(f == "Chebyshev" and t == "Cardinal" for f, t in zip(F, G))
-            if not (ups and downs) and not (downs and "Chebyshev" in G):
-                continue  # uniform-direction calls are covered above
+            if F == G:
+                continue
             rep.case(key=("mixed-changebasis", M, N, rank, e, F, G))
             rep.count("mixed-direction changeBasis")
             P = Polynomial(to_basis(vals, Ts, F).copy(), g, F, dirs, e)
@@ -266,7 +264,7 @@ def search(rep: C.Report, tier: str, broken):
                      dict(info, from_basis=F, to_basis=G, axes_chebyshev_to_cardinal=where, max_abs_error=err, largest_expected=float(np.max(np.abs(want))),
                           how="Polynomial(coeffs in from_basis, grid, from_basis, directions, endpoints).changeBasis(to_basis)"), "C16:mixed-changebasis")
         for F, k in itertools.product(allb, range(rank)):
-            if F[k] != "Chebyshev" or all(F[i] == "Cardinal" for i in range(rank) if i != k):
+            if "Chebyshev" not in F:
                 continue
             rep.case(key=("mixed-integrate", M, N, rank, e, F, k))
             rep.count("integrate with other axes Chebyshev")
